@@ -2,6 +2,26 @@
 """Fill the hand-written 'what' / 'needs' fields of seeded/<id>/meta.json and print the DESIGN table."""
 import json, os, glob
 INFO = {
+ "C01-5": ("kernel_iq.c advances the mesh position only for accumulated points", "mesh > 100 points AND at least one skipped point (cutoff > 0 or invalid point)"),
+ "C01-6": ("numbered members of vector parameters lose their declared limits", "dispersity on a vector member wide enough to cross the declared limit"),
+ "C02-5": ("uniform distribution no longer clipped to the hard limits", "uniform with a limit inside centre +- sigma"),
+ "C02-6": ("numbered members of vector parameters lose their declared limits", "wide distribution on a vector member, through the model wrappers"),
+ "C03-5": ("Pinhole2D: qy/qx computed only where qx != 0 (polar angle 0 on the qx == 0 line)", "2-D pixels exactly at qx == 0"),
+ "C03-6": ("Pinhole1D no longer forwards nsigma to pinhole_extend_q", "caller-chosen nsigma larger than the default with the default q_calc"),
+ "C05-5": ("rotation matrix rebuilt only when the innermost loop restarts, inside the cutoff test", "2-D, jitter + size dispersity with the size loop innermost, cutoff > 0, low-weight first size point"),
+ "C05-6": ("hollow_cylinder theta/phi limits [0,180] / [0,360]", "hollow_cylinder with theta or phi jitter (negative half of the jitter mesh dropped)"),
+ "C07-5": ("kernel_iq.c accumulates the effective radius with weight0 (no |cos dtheta| factor)", "2-D, oriented P with theta jitter, effective-radius mode >= 1"),
+ "C07-6": ("Kernel.Fq returns <F> without dividing by the total weight", "beta mode AND weights that do not sum to one (cutoff > 0, array distributions)"),
+ "C08-5": ("get_mesh treats dim None as 1-D (orientation dispersity dropped)", "2-D mixture whose first component is P@S, with orientation dispersity"),
+ "C08-6": ("MixtureKernel caches per-component call details keyed on that component's lengths only", "second call on one kernel where another component's mesh size changed"),
+ "C09-5": ("kernelpy _loops: index increment moved after the NaN `continue`", "pure-Python definition with a validity region AND an invalid mesh point followed by valid ones"),
+ "C09-6": ("make_source no longer rejects Iqac with psi in the table", "compiled definition declaring theta, phi, psi but supplying only Iqac"),
+ "C10-5": ("DataMixin._calc_theory no longer forwards the cutoff", "DirectModel / Iq() / bumps with two dispersed parameters or a large cutoff"),
+ "C10-6": ("SasviewModel shares one dispersity record among all parameters", "different dotted dispersity settings on two parameters of one SasView-style object"),
+ "C11-5": ("DllKernel result buffer zeroed once at allocation, empty-mesh clear removed", "reused compiled kernel, an ordinary call, then a request whose distribution is cut away entirely"),
+ "C11-6": ("_create_vector_Iq marks the plugin's own scalar Iq as vectorized", "pure-Python definition without Iq.vectorized loaded or built twice in one process"),
+ "C17-5": ("reloaded plugin module re-executed inside the old module object", "same-process reload after an edit that removes a top-level name"),
+ "C17-6": ("library model directory searched before the plugin's own directory", "plugin-local C file whose name also exists in sasmodels/models"),
  "C01-3": ("kernel_iq.c restores the shell-volume sum from the form-volume slot on re-entry (FQ variant)", "hollow model with Fq AND 1-D AND mesh > 100 points"),
  "C01-4": ("make_details pd_stride built from lengths instead of cumulative products", "3 or more dispersed parameters AND mesh > 100 points (pure-Python models: any mesh)"),
  "C02-3": ("degenerate-case guard npts < 2 becomes npts < 1", "exactly one point requested with a non-zero width"),
